@@ -1,13 +1,15 @@
 (* Run/C14.v — executable comparator for the C14 correspondence. *)
 From Coq Require Import List NArith ZArith Bool.
-From Cedar Require Import Lib.Bytes gen.Consts Model.Msg.
+From Cedar Require Import Lib.Bytes gen.Consts Model.Msg Model.Double.
 Import ListNotations.
 Local Open Scope N_scope.
 
-Inductive pval := VChar (b : N) | VInt (z : Z) | VStr (bs : bytes) | VStrB (bs : bytes) | VBytes (bs : bytes).
-Inductive gop := GChar | GInt | GInt32 | GUint32 | GStr | GBytes (n : Z) | GRemain.
+(* doubles travel as their 64-bit patterns, never as decimal text *)
+Inductive pval := VChar (b : N) | VInt (z : Z) | VStr (bs : bytes) | VStrB (bs : bytes) | VBytes (bs : bytes)
+              | VDouble (bits : Z).
+Inductive gop := GChar | GInt | GInt32 | GUint32 | GStr | GBytes (n : Z) | GRemain | GDouble.
 Inductive gval := RChar (b : N) | RInt (z : Z) | RBytes (bs : bytes) | RDig (d : N * N * bytes * bytes)
-                | RErr (cls : N) | RPanic.
+                | RDouble (bits : Z) | RErr (cls : N) | RPanic.
 (* an observed frame: eom flag and either the bytes or their projection *)
 Inductive xframe := XFull (eom : bool) (bs : bytes) | XDig (eom : bool) (d : N * N * bytes * bytes).
 
@@ -30,6 +32,7 @@ Definition put_val (enc : bool) (w : writer) (v : pval) : writer :=
   | VStr s => put_string enc w s
   | VStrB s => put_string_bytes enc w s
   | VBytes s => put_bytes w s
+  | VDouble bits => put_double w bits
   end.
 
 Definition dig_eqb (a b : N * N * bytes * bytes) : bool :=
@@ -66,6 +69,7 @@ Definition run_get (enc : bool) (r : reader) (o : gop) : reader * gval :=
   | GStr => conv RBytes (get_string enc r)
   | GBytes n => conv RBytes (get_bytes r n)
   | GRemain => conv RBytes (get_remaining r)
+  | GDouble => conv RDouble (get_double r)
   end.
 
 Definition gval_ok (g : gval) : bool :=
@@ -77,18 +81,20 @@ Definition gval_eqb (model obs : gval) : bool :=
   | RInt a, RInt b => Z.eqb a b
   | RBytes a, RBytes b => bytes_eqb a b
   | RBytes a, RDig d => dig_eqb (digestN a) d
+  | RDouble a, RDouble b => Z.eqb a b
   | RErr a, RErr b => a =? b
   | RPanic, RPanic => true
   | _, _ => false
   end.
 
-(* compare up to and including the first non-Ok result *)
+(* compare op by op for as long as the harness went on: it continues after an error
+   result (the Message stays usable) and stops after a panic *)
 Fixpoint run_gets (enc : bool) (r : reader) (ops : list gop) (obs : list gval) : bool :=
   match ops, obs with
   | [], [] => true
   | o :: ops', g :: obs' =>
       let '(r', m) := run_get enc r o in
-      gval_eqb m g && (if gval_ok m then run_gets enc r' ops' obs' else true)
+      gval_eqb m g && run_gets enc r' ops' obs'
   | _, _ => false
   end.
 
